@@ -1,26 +1,56 @@
 #!/usr/bin/env python3
-"""Prints the sensitivity tables for DESIGN.md section 7 from seeded/results.json, seeded/*/meta.json and mutants/results.json."""
-import json, os
+"""Regenerates the sensitivity tables of DESIGN.md section 7 (between the markers) from seeded/results.json,
+seeded/*/meta.json and mutants/results.json. Prints a summary."""
+import json, os, re
+
+def between(d, name, body):
+    a, b = f"<!-- {name}:begin -->", f"<!-- {name}:end -->"
+    if a not in d:
+        print("marker missing:", name); return d
+    return d[:d.index(a) + len(a)] + "\n" + body + "\n" + d[d.index(b):]
+
 seeds = json.load(open("/verif/seeded/results.json"))
-print("| seeded change (independent sub-agent) | property | needs, in order to manifest | caught by (quick tier) |")
-print("|---|---|---|---|")
-for name in sorted(seeds):
-    r = seeds[name]; meta = json.load(open(f"/verif/seeded/{name}/meta.json"))
+rows = ["| seeded change | round | what it needs in order to manifest | caught by (quick tier, final checks) | at first evaluation |", "|---|---|---|---|---|"]
+tot = caught_now = first = 0
+per_round = {}
+for name in sorted(n for n in os.listdir("/verif/seeded") if os.path.isdir(f"/verif/seeded/{n}")):
+    meta = json.load(open(f"/verif/seeded/{name}/meta.json"))
+    r = seeds.get(name, {})
+    m = re.search(r"-r(\d)-", name); rnd = int(m.group(1)) if m else 1
     caught = [f"{p} ({v['secs']:.0f} s)" for p, v in r.get("checks", {}).items() if v["caught"]]
     missed = [p for p, v in r.get("checks", {}).items() if not v["caught"]]
     cell = ", ".join(caught) if caught else "**not caught**"
     if missed and caught:
         cell += "; not by " + ", ".join(missed)
     ok = r.get("demo_passes_without_change") and r.get("suite_passes_with_change") and r.get("demo_fails_with_change")
-    print(f"| `{name}` | {meta['property']} | {meta['needs_to_manifest']} | {cell}{'' if ok else ' (confirmation incomplete)'} |")
-print()
+    if not ok:
+        cell += " (confirmation incomplete)"
+    needs = meta["needs_to_manifest"]
+    why = ""
+    k = re.search(r"[;(]\s*(initially )?missed", needs)
+    if k:
+        needs, why = needs[:k.start()].strip(), needs[k.start():].strip(" ;()")
+    fm = "missed - " + why if meta.get("initially_missed") else "caught"
+    rows.append(f"| `{name}` | {rnd} | {needs} | {cell} | {fm} |")
+    tot += 1; caught_now += bool(caught); first += not meta.get("initially_missed")
+    pr = per_round.setdefault(rnd, [0, 0]); pr[0] += 1; pr[1] += not meta.get("initially_missed")
+d = open("/verif/DESIGN.md").read()
+d = between(d, "seeds-table", "\n".join(rows))
+summary = f"{tot} seeded changes; {caught_now} caught by the final checks in the quick tier; {first} were caught by the check as it stood when the change arrived (" + ", ".join(f"round {k}: {v[1]}/{v[0]}" for k, v in sorted(per_round.items())) + ")."
+d = between(d, "seeds-summary", summary)
+
 mut = json.load(open("/verif/mutants/results.json"))
-print("| hand-written mutant | repo suite | killed by | survived |")
-print("|---|---|---|---|")
+rows = ["| hand-written mutant | repo suite | killed by | survived |", "|---|---|---|---|"]
+nk = 0
 for name in sorted(mut):
     r = mut[name]
     if r.get("status") != "ok":
-        print(f"| `{name}` | - | {r.get('status')} | |"); continue
+        rows.append(f"| `{name}` | - | {r.get('status')} | |"); continue
     k = ", ".join(f"{x['prop']} ({x['secs']:.0f} s)" for x in r["killed_by"]) or "-"
     s = ", ".join(x["prop"] for x in r["survived"]) or "-"
-    print(f"| `{name}` | {r['suite']} | {k} | {s} |")
+    nk += bool(r["killed_by"])
+    rows.append(f"| `{name}` | {r['suite']} | {k} | {s} |")
+d = between(d, "mutants-table", "\n".join(rows))
+d = between(d, "mutants-summary", f"{len(mut)} hand-written mutants, {nk} killed in the quick tier.")
+open("/verif/DESIGN.md", "w").write(d)
+print(summary); print(len(mut), "mutants,", nk, "killed")
